@@ -5,6 +5,7 @@ search:         on the implementation alone: for every p in the grid and every x
                 negate(p)(x) must return `not p(x)`."""
 from common import *  # noqa: F401,F403
 from common import call, code_of_call, enc, eval_codes, gen, main, rng_of
+from optcommon import skey
 
 from predicate.negate import negate
 from predicate import predicate as PP
@@ -81,6 +82,12 @@ def correspondence(payload):
 def search(payload):
     rng = rng_of(payload)
     ps = grid(rng, "thorough" if payload.get("deep") else payload["tier"])
+    # twins (predicates that print alike) negated one after the other in this one process, in both orders
+    tw = []
+    for ma, mb in gen.twin_makers():
+        tw += [ma(), mb(), gen.mk("and", ma(), mb()), gen.mk("not", mb()), ma()]
+    ps = ps + tw + tw[::-1]
+    values = VALUES + [v for v in gen.TWIN_VALUES if not any(type(v) is type(w) and v == w for w in VALUES)]
     fails, n = [], 0
     for p in ps:
         try:
@@ -88,14 +95,14 @@ def search(payload):
         except Exception as e:  # noqa: BLE001
             fails.append({"p": repr(p), "error": f"negate raised {type(e).__name__}: {e}"})
             continue
-        for x in VALUES:
+        for x in values:
             k, r = call(p, x)
             if k != "ok" or not isinstance(r, bool):
                 continue
             n += 1
             k2, r2 = call(np_, x)
             if k2 != "ok" or r2 != (not r):
-                fails.append({"p": repr(p), "x": repr(x), "p(x)": r, "negate(p)": repr(np_), "negate(p)(x)": repr(r2) if k2 == "ok" else f"raises {r2}"})
+                fails.append({"p": repr(p), "p_structure": skey(p), "x": repr(x), "p(x)": r, "negate(p)": repr(np_), "negate(p)_structure": skey(np_), "negate(p)(x)": repr(r2) if k2 == "ok" else f"raises {r2}"})
                 if len(fails) >= 5:
                     break
         if len(fails) >= 5:
@@ -108,4 +115,5 @@ def replay(payload):
     return {"fails": True, "note": "re-run ./check C04; failing inputs are listed by repr", "input": payload["replay"].get("input")}
 
 
-main({"correspondence": correspondence, "search": search, "replay": replay})
+if __name__ == "__main__":
+    main({"correspondence": correspondence, "search": search, "replay": replay})
